@@ -1305,7 +1305,7 @@ func main() {
 	a := vh.ParseArgs()
 	etoken.GENERICS = etoken.GENERICS_V2_CTI
 	rng := vh.NewRng(a.Seed)
-	rep := vh.NewReport(a, "sessions = fresh interpreter + the whole generic catalogue (17 generic types incl. recursive, mutually recursive, alias, constant-parameter and nested ones; 41 generic functions over slices/maps/closures/channels/lists/trees) declared in random order with random parameter names, "+
+	rep := vh.NewReport(a, "sessions = fresh interpreter + the whole generic catalogue (21 generic types incl. recursive, mutually recursive, alias, constant-parameter and nested ones; 51 generic functions over slices/maps/closures/channels/lists/trees, package-level state and late-declared names) declared in random order with random parameter names, "+
 		"then a random history of operations: generic x random arguments per parameter class (ints of all widths, floats, string, complex, named types, aliases byte/rune/AliasInt as alternative spellings, slices, maps, arrays, pointers, funcs, chans, struct literals, other instances to depth 2, integer constants spelled as literal/expression/named constant) x scope "+
 		"(top, func, closure1..3, block, goroutine, method, localtype, infer, nest = a function body (with or without parameters) and 0..5 nested constructs drawn from {block, block with local, for, for with body local, range, if with init, switch with init, closure, closure with local, closure with parameter}) x random input values; 30% of the operations repeat or permute an earlier (generic, arguments); "+
 		"5 generic functions have bodies that read/write package-level variables and call package-level functions; every session names one of them at top level and below 0..5 nest layers (depth sweep; the measured number of run-time environments between the naming site and the declaration is in distribution env-depth-below-declaration(upn):N, printed by OptDebugGenerics); "+
